@@ -967,8 +967,8 @@ CONFIG["C12"] = dict(
                "verify resend), every hostname-search deadline and the interface check has a timer - is preserved by iter for every "
                "input (timersCover_iter), holds after every history from the fresh daemon (timersCover_always), hence "
                "wake_never_late(_run): the requested wake-up is no later than any due work after the last iteration; "
-               "expiry_after_last, old_timers_popped; hfound_on_time (an iteration not later than the requested wake-up reports no "
-               "address whose record ran out before now).",
+               "expiry_after_last, old_timers_popped; on_time_nothing_expired (an iteration not later than the requested wake-up "
+               "finds no cached entry that ran out before now).",
     level_note="Trusted: Lean kernel; allowed axioms only; simulation seams (the gate replaces the blocking poll, so the 1 ms "
                "floor of the real poll time-out is not exercised). The two-scheduler comparison is an oracle on the real "
                "code, not a theorem; probe steps, announcement repeats, refreshes, expiries and verify deadlines are covered "
@@ -992,21 +992,22 @@ CONFIG["C17"] = dict(
     level_text="On the client model (Client.iter, compared with the real daemon per iteration): hfound_sound / hremoved_sound over "
                "whole histories from the fresh daemon, in terms of delivered records (each listed address from a delivered A/AAAA "
                "record of exactly that owner name, on the interface it arrived on, for a resolve_hostname call on that channel, "
-               "letter case ignored; lifetime not over at the previous iteration / record ran out in this very iteration); "
+               "letter case ignored; for AddressesFound the lifetime ends after the instant of the event, however late the "
+               "iteration comes; for AddressesRemoved the record ran out in this very iteration); hfound_unexpired (every state, "
+               "every input: each listed address belongs to a cache record not expired at now, never an empty list - the "
+               "statement D44 violated, proved since get_addresses_for_host filters expired records), hfound_unexpired_full_holds; "
                "hfound_lists_all, hremoved_exact (cache-level exactness); hfound_complete(_first) (a new or revived address of a "
                "searched host in a packet taken in is reported in that handle_response); resolve_starts_client, "
                "resolve_first_rerun, resolve_rerun_open/closed, timeout_contract_client, timeout_only_when_due (A+AAAA at once, "
                "doubling, cut at the deadline, SearchTimeout then SearchStopped); refresh_while_open, refresh_timer_armed. "
-               "'Unexpired at the instant of the event' is refuted on a late iteration (hfound_unexpired_full_false, witness "
-               "lateHistory). The monitor ok_C17 decides the same clauses on every real history from the delivered records; the "
-               "older theorems on the scheduler fragment are kept.",
+               "D44_regression is the former counterexample (a late iteration) on the repaired model. The monitor ok_C17 decides "
+               "the same clauses on every real history from the delivered records (unexpired strictly, the expiry millisecond "
+               "included); the older theorems on the scheduler fragment are kept.",
     level_note="Trusted: Lean kernel; allowed axioms only; simulation seams; the address-event clauses are decided by an oracle "
                "computed from the delivered records (record identity includes the cache-flush bit, as in the daemon), not by a "
-               "model prediction; the exact expiry millisecond of an address in AddressesFound is left open (statement masks it).",
-    partial=["hfound_unexpired_full is false of the model: get_addresses_for_host does not look at expiry times, so on a late iteration "
-             "(handle_response runs before the eviction of the same iteration) an address whose record ran out is still listed; "
-             "what holds without a timeliness assumption is hfound_sound (not over at the previous iteration)",
-             "completeness is a step contract (per handle_response), not an invariant over histories"],
+               "model prediction.",
+    partial=["completeness is a step contract (per handle_response; for records with TTL >= 1, which is what the decoder "
+             "delivers), not an invariant over histories"],
     assumptions=["event receivers stay alive", "histories with verify requests are not judged for AddressesRemoved (verify shortens lifetimes)"],
 )
 
